@@ -17,6 +17,12 @@ import (
 // relative round-off error in big.Float precision numbers
 var dpSafeEpsilon = 1e-15
 
+// dpMinSafeDetSum is the magnitude of detleft+detright below which the
+// floating-point filter does not trust its error bound: near 2^-1022 the
+// products of coordinate differences (and dpSafeEpsilon*detsum itself) are
+// subnormal or zero and carry no relative error bound.
+const dpMinSafeDetSum = 0x1p-900
+
 // exactPrec is a mantissa size, in bits, in which the determinant of any three
 // finite float64 points is computed without rounding: a float64 is a multiple
 // of 2^-1074 below 2^1024 (2098 bits), a difference needs one more bit, a
@@ -126,8 +132,13 @@ func Intersection(line1Start, line1End, line2Start, line2End geom.Coord) geom.Co
 func orientationIndexFilter(vectorOrigin, vectorEnd, point geom.Coord) orientation.Type {
 	var detsum float64
 
-	detleft := (vectorOrigin[0] - point[0]) * (vectorEnd[1] - point[1])
-	detright := (vectorOrigin[1] - point[1]) * (vectorEnd[0] - point[0])
+	dxOrigin := vectorOrigin[0] - point[0]
+	dyEnd := vectorEnd[1] - point[1]
+	dyOrigin := vectorOrigin[1] - point[1]
+	dxEnd := vectorEnd[0] - point[0]
+
+	detleft := dxOrigin * dyEnd
+	detright := dyOrigin * dxEnd
 	det := detleft - detright
 
 	switch {
@@ -142,7 +153,20 @@ func orientationIndexFilter(vectorOrigin, vectorEnd, point geom.Coord) orientati
 		}
 		detsum = -detleft - detright
 	default:
+		// detleft is zero. If detright is zero as well, the points are collinear
+		// only if both products are exactly zero, i.e. each has a zero factor: two
+		// non-zero factors whose product underflowed say nothing about the sign.
+		if detright == 0.0 && ((dxOrigin != 0.0 && dyEnd != 0.0) || (dyOrigin != 0.0 && dxEnd != 0.0)) {
+			return 2
+		}
 		return orientationBasedOnSign(det)
+	}
+
+	// The error bound below presupposes that neither the two products nor the
+	// bound itself underflow. For magnitudes that small, let the exact
+	// arithmetic decide.
+	if detsum < dpMinSafeDetSum {
+		return 2
 	}
 
 	errbound := dpSafeEpsilon * detsum
